@@ -140,6 +140,7 @@ def specs(deep: bool) -> list[dict]:
         dict(name="p", grid_n=4, n_mazes=4, seed=5, maze_ctor_kwargs=dict(accessible_cells=0.5)),
         # arguments that mean something else as a float than as the equal integer (1.0 = every cell / full depth, 1 = one cell / depth one;
         # the integer twins are used in histories only: a one-cell maze has no two endpoints and generate raises the documented ValueError)
+        dict(name="t", grid_n=4, n_mazes=4, seed=21, maze_ctor="gen_prim", maze_ctor_kwargs=dict(max_tree_depth=5)),
         dict(name="q", grid_n=4, n_mazes=4, seed=3, maze_ctor_kwargs=dict(accessible_cells=1.0)),
         dict(name="r", grid_n=4, n_mazes=4, seed=3, maze_ctor_kwargs=dict(max_tree_depth=1.0)),
     ]
